@@ -46,8 +46,8 @@ LEVEL_TEXT = (
 )
 LEVEL_NOTE = (
     "Trusted: Lean kernel + Mathlib (axioms propext, Classical.choice, Quot.sound); real-number idealisation of IEEE arithmetic; "
-    "the correspondence (differential test, sampled) between model and code; existence of a thin SVD and that jnp.linalg.svd "
-    "returns one (hypotheses of C02_nuclear / C02_nuclear_complex, checked numerically on the factors of every case); "
+    "the correspondence (differential test, sampled) between model and code; that jnp.linalg.svd returns a thin SVD of its argument "
+    "(hypotheses of C02_nuclear / C02_nuclear_complex, checked numerically on the factors of every case; no existence assumption: the norm is the dual of the operator norm); "
     "contracts angle=Complex.arg, exp/cos/sin, x**(1/3) and the polar form of the principal complex power (class HasTrig); "
     "inside the band 0<|p|<=1e-7 _dep_cubic_root is approximate by design (residual proved non-zero, effect O(1e-14) on the objective). "
     "Recorded defect: L0Norm threshold (known l0-threshold).  Found by this engine and repaired upstream: L2-ball projection (b3feb73), L1-L2 at v=0 (cda1690), float32 default weights (c5bbd78), L1-L2 on block arrays (d060cbd)."
@@ -76,7 +76,7 @@ RULE = (
 )
 ASSUMPTIONS = [
     "IEEE rounding is not modelled: model and code are compared within 1e-9 (float64) / 1e-4 (float32) relative tolerance, exactly in decision on dyadic ties",
-    "SVD: every (real or complex) matrix has a thin SVD and jnp.linalg.svd returns one (orthonormal U columns / Vh rows, s >= 0, U diag(s) Vh = v) - hypotheses of C02_nuclear / C02_nuclear_complex, checked numerically on the factors of every nuclear case; no trace inequality is assumed",
+    "SVD: jnp.linalg.svd returns a thin SVD of its argument (orthonormal U columns / Vh rows, s >= 0, U diag(s) Vh = v) - hypotheses of C02_nuclear / C02_nuclear_complex, checked numerically on the factors of every nuclear case; neither existence of SVDs of other matrices nor a trace inequality is assumed (nuclear norm specified as the dual of the operator norm)",
     "contracts of the transcendental primitives used by _dep_cubic_root/_cbrt and the complex L1 phase: angle = Complex.arg, cos/sin/exp, x**(1/3) on x >= 0, principal complex power in polar form (class HasTrig; libm at Float)",
     "_dep_cubic_root inside its band 0 < |p| <= 1e-7 replaces w^3 by -q: approximate by design, excluded from C02_cubic_root (residual proved non-zero); model and code agree there too",
     "projectors handed to SetDistance/SquaredSetDistance are metric projections onto closed convex sets (hypothesis IsProjAt of the theorem)",
